@@ -57,7 +57,9 @@ def rand_options(rng, syntax):
 # as a product here.  Stated in attr_util.multi_get / attr_out_spec on the written mentions.
 KEY_SHAPE_TABLES = True        # tables built per name from the key shapes plain / starred / both (off = fixed tables only)
 SHORTHAND_RUNS = True          # the stream and sweep of shorthand runs (`..a`, `...a`, `##a`) x table shapes
-MAP_TARGETS = ['className', 'styleName', ':class', 'v-bind:id', 'htmlFor', 'klass', 'ID', 'data-n', 'x-y', 'N1', 'ng:k', '@z']
+# (no target equals, in any letter case, a name another attribute of the same element may carry: with `class` renamed to `ID` and
+# output.attributeCase upper an element would print two attributes called ID, and which one a reader means is not settled)
+MAP_TARGETS = ['className', 'styleName', ':class', 'v-bind:id', 'htmlFor', 'klass', 'IDn', 'data-n', 'x-y', 'N1', 'ng:k', '@z']
 PREFIX_TARGETS = ['styles', 'st', 'ids', 'css', 'this', 'S1', 's2', 'm_2']
 KEY_SHAPES = ('plain', 'star', 'both')
 
